@@ -15,6 +15,7 @@ import (
 
 	"github.com/restic/restic/internal/data"
 	"github.com/restic/restic/internal/global"
+	"github.com/restic/restic/internal/restic"
 	kit "github.com/restic/restic/internal/verifkit"
 )
 
@@ -27,6 +28,7 @@ type c54Entry struct {
 type c54Rec struct {
 	Scenario       int          `json:"scenario"`
 	Pattern        string       `json:"pattern"`
+	Plan           string       `json:"plan"`
 	Selection      string       `json:"selection"`
 	Snaps          [][]c54Entry `json:"snaps"`
 	StatsSize      int64        `json:"stats_size"`
@@ -37,13 +39,11 @@ type c54Rec struct {
 	DiskBytes      int64        `json:"disk_bytes"`
 }
 
-// c54Entries lists the entries a snapshot of the absolute path src contains: the chain of ancestor
-// directories and everything below src, as found by lstat.
+// c54Entries lists the entries a snapshot of the relative target "src" contains: the directory itself and
+// everything below it, as found by lstat.
 func c54Entries(src string) []c54Entry {
 	var res []c54Entry
-	for range strings.Split(strings.Trim(filepath.Clean(src), "/"), "/") {
-		res = append(res, c54Entry{T: "dir"})
-	}
+	res = append(res, c54Entry{T: "dir"}) // the backed-up directory itself (relative target "src")
 	groups := map[uint64]int{}
 	var paths []string
 	_ = filepath.Walk(src, func(p string, fi os.FileInfo, err error) error {
@@ -203,6 +203,25 @@ func c54Mutate(src string, step int, rng *rand.Rand) {
 	}
 }
 
+var c54BackupMu sync.Mutex
+
+// c54Tree returns the root tree id of a snapshot ("" on error).
+func c54Tree(e *vEnv, id string) string {
+	repo, err := e.open()
+	if err != nil {
+		return ""
+	}
+	rid, err := restic.ParseID(id)
+	if err != nil {
+		return ""
+	}
+	sn, err := data.LoadSnapshot(context.Background(), repo, rid)
+	if err != nil || sn.Tree == nil {
+		return ""
+	}
+	return sn.Tree.String()
+}
+
 type c54Snap struct {
 	id      string
 	entries []c54Entry
@@ -224,9 +243,14 @@ func c54Scenario(t *testing.T, si int, pattern string, rng *rand.Rand, out *kit.
 	src := filepath.Join(e.base, "src")
 	c54Build(src, filepath.Join(e.base, "outside"), pattern, rng)
 	var snaps []*c54Snap
-	nsn := 2 + rng.Intn(2)
-	for k := 0; k < nsn; k++ {
-		if k > 0 {
+	// the history: first backup, then per step either a mutation + backup ('m') or a backup repeated with no
+	// change at all ('r': the new snapshot has the IDENTICAL root tree)
+	plans := []string{"m", "r", "mr", "rr", "rm", "mrr", "rmr", "mm"}
+	plan := plans[(si/len(c54Patterns)+si)%len(plans)]
+	lastTree := ""
+	for k := 0; k <= len(plan); k++ {
+		repeat := k > 0 && plan[k-1] == 'r'
+		if k > 0 && !repeat {
 			c54Mutate(src, k, rng)
 		}
 		opts := BackupOptions{}
@@ -239,7 +263,13 @@ func c54Scenario(t *testing.T, si int, pattern string, rng *rand.Rand, out *kit.
 		for _, id := range e.snapshotIDs() {
 			before[id] = true
 		}
-		if err := e.backup("", []string{src}, opts); err != nil {
+		// backed up as the relative path "src" from its parent directory: the snapshot then has no chain of
+		// ancestor directories (whose metadata, e.g. the mtime of /tmp, would differ between two backups and
+		// make the root trees of an unchanged repeat differ).  chdir is process wide: backups are serialised.
+		c54BackupMu.Lock()
+		err := e.backup(e.base, []string{"src"}, opts)
+		c54BackupMu.Unlock()
+		if err != nil {
 			res.Problem("backup: %v %s", err, vTail(e.lastErr, 300))
 			return
 		}
@@ -254,6 +284,19 @@ func c54Scenario(t *testing.T, si int, pattern string, rng *rand.Rand, out *kit.
 			return
 		}
 		snaps = append(snaps, &c54Snap{id: id, entries: c54Entries(src), tag: tag})
+		tree := c54Tree(e, id)
+		if tree == "" {
+			res.Problem("cannot load snapshot %s", id)
+			return
+		}
+		if repeat {
+			if tree == lastTree {
+				res.Count("snapshots_with_identical_root_tree", 1)
+			} else {
+				res.Count("repeat_backup_with_different_root_tree", 1)
+			}
+		}
+		lastTree = tree
 	}
 	jopts := e.gopts
 	jopts.JSON = true
@@ -342,7 +385,7 @@ func c54Scenario(t *testing.T, si int, pattern string, rng *rand.Rand, out *kit.
 			res.Problem("no stats output in %q", vTail(outp, 200))
 			continue
 		}
-		rec := c54Rec{Scenario: si, Pattern: pattern, Selection: sl.name, StatsSize: st.TotalSize, StatsCount: st.TotalFileCount, StatsSnapshots: st.SnapshotsCount}
+		rec := c54Rec{Scenario: si, Pattern: pattern, Plan: plan, Selection: sl.name, StatsSize: st.TotalSize, StatsCount: st.TotalFileCount, StatsSnapshots: st.SnapshotsCount}
 		good := true
 		for _, s := range sl.snaps {
 			if !measure(s) {
